@@ -6,7 +6,7 @@ names="$@"; [ -z "$names" ] && names=$(ls seeded)
 git -C /repo diff --quiet || { echo "/repo is not clean"; exit 3; }
 for n in $names; do
   p=seeded/$n/patch.diff
-  checks=$(python3 -c "import json,re,sys; m=json.load(open('seeded/$n/meta.json')); print(' '.join(sorted(set(re.findall(r'C\d\d', m.get('caught_by','')))) or m['property'])")
+  checks=$(python3 -c "import json,re,sys; m=json.load(open('seeded/$n/meta.json')); print(' '.join(sorted(set(re.findall(r'C\d\d', m.get('caught_by',''))))) or m['property'])")
   if ! git -C /repo apply --check /verif/$p 2>/dev/null; then echo "$n: PATCH DOES NOT APPLY"; continue; fi
   git -C /repo apply /verif/$p
   res=""
